@@ -196,6 +196,16 @@ pub fn run(tier: &str) -> i32 {
         ("\"[]\"", false), ("\"null\"", false), ("\"\\u007b\\u007d\"", false),
         (" {\n} ", true), ("{\"\":{}}", true), ("{\"a\":\"{}\"}", true),
     ];
+    // ... and long non-object documents made of multi-byte characters (every character width x every shift), which a
+    // refusal that quotes the start of the document must survive
+    let mut long_docs: Vec<String> = Vec::new();
+    for ch in ["\u{e9}", "\u{20ac}", "\u{1F600}"] {
+        for shift in 0..ch.len() {
+            long_docs.push(format!("\"{}{}\"", "a".repeat(shift), ch.repeat(70)));
+            long_docs.push(format!("[{}\"{}\"]", " ".repeat(shift), ch.repeat(70)));
+        }
+    }
+    let metas: Vec<(&str, bool)> = metas.iter().copied().chain(long_docs.iter().map(|d| (d.as_str(), false))).collect();
     let mut nm = 0u64;
     for comp in 1..=4u8 {
         for (m, accept) in metas.iter() {
